@@ -521,14 +521,14 @@ JUDGES = {"C06": judge_c06, "C07": judge_c07, "C08": judge_c08}
 
 PARAMS = {
     "C06": dict(configs=rec_configs((1, 2, 3, 4, 5), with_off=True), strict=1,
-                quick=(16, 40, 10, 16), thorough=(64, 70, 13, 26), floor=300,
+                quick=(16, 40, 10, 16), thorough=(160, 70, 13, 26), floor=300,
                 rule="grammars accepted under strict checking (reduced), with and without `error' rules (pool, random "
                      "with error symbols, mutants, random + one added error rule); inputs: non-sentences (edits of "
                      "sentences, random strings, exhaustive short strings) plus two sentences; configurations: recovery "
                      "off x lookahead 0..2 and recovery on x lookahead 0..2 x recovery_match 1..5. Non-trivial = distinct "
                      "(grammar,input) whose first offending token is neither token 0 nor end of input."),
     "C07": dict(configs=rec_configs((1, 2, 3, 5), ones=(1, 0)), strict=None,
-                quick=(16, 30, 8, 12), thorough=(64, 50, 9, 18), floor=300,
+                quick=(16, 30, 8, 12), thorough=(160, 50, 9, 18), floor=300,
                 rule="accepted grammars with zero or more `error' rules, strict and non-strict; inputs up to 8-9 tokens "
                      "(sentences and non-sentences); recovery on, recovery_match in {1,2,3,5}, lookahead 0..2, one/all "
                      "parses. The tree must be a reference translation of the input repaired by replacing segments of "
@@ -536,7 +536,7 @@ PARAMS = {
                      "enumeration with <= min(4, callbacks+secondary states) segments). Non-trivial = distinct "
                      "(grammar,input,configuration) of non-sentences with K>0 or >=2 callbacks."),
     "C08": dict(configs=rec_configs((1, 2, 3, 4, 5)), strict=None,
-                quick=(16, 40, 10, 16), thorough=(64, 70, 13, 26), floor=300,
+                quick=(16, 40, 10, 16), thorough=(160, 70, 13, 26), floor=300,
                 rule="accepted grammars with `error' rules; non-sentences; recovery_match 1..5, lookahead 0..2; the first "
                      "callback's ignored count is compared with the minimum over all simple recoveries computed by "
                      "the reference recogniser (back to p with `error' viable, skip to q, match). Non-trivial = distinct "
@@ -587,9 +587,8 @@ def check(pid, tier):
     P = PARAMS[pid]
     shards, n_grammars, maxlen, n_inputs = P[tier]
     variants = ["asan"] * shards
-    if tier == "thorough":
-        for i in range(0, shards, 4):
-            variants[i] = "asan-small"
+    for i in range(3, shards, 4 if tier == "thorough" else 8):
+        variants[i] = "asan-small"
     jobs = [(pid, ck.seed, i, n_grammars, maxlen, n_inputs, variants[i]) for i in range(shards)]
     res = core.pmap(_worker, jobs)
     counters = sem.merge(ck, res)
